@@ -362,4 +362,17 @@ def c17Visit (cfg : LeafCfg) (scr : LeafScript) (seg : List Ev) : Bool :=
                | _ => if r.isError then b == r.box else b == r.valueOf))
       | _ => false)
 
+/-- **C17**, when the FALLBACK produced the exec-phase result: post receives the prep payload and the value the
+    fallback returned, seen through post's style (wrapped once for a Result-style post, as it is for the others) —
+    this run's value, not anything an earlier run or attempt left behind. -/
+def c17Fallback (cfg : LeafCfg) (scr : LeafScript) (seg : List Ev) : Bool :=
+  let p := split seg
+  match p.fbs, prepValue cfg scr, okVal scr.fb with
+  | _ :: _, some pv, some x =>
+    p.posts.all fun e =>
+      match e with
+      | .post _ _ _ a b => a == (postArgs cfg.postS pv x).1 && b == (postArgs cfg.postS pv x).2
+      | _ => false
+  | _, _, _ => true
+
 end Flyt.Spec
